@@ -6,9 +6,17 @@ import (
 	"bytes"
 	"errors"
 	"fmt"
+	"io"
+	"os"
+	"path/filepath"
+	"runtime/debug"
 	"sort"
 	"strings"
 	"sync"
+	"sync/atomic"
+
+	"go.etcd.io/bbolt"
+	"go.sia.tech/coreutils"
 
 	"go.sia.tech/core/consensus"
 	"go.sia.tech/core/types"
@@ -60,16 +68,63 @@ type recDB struct {
 	chain.DB
 	snapshots bool
 	durable   chain.DB       // the layer whose content survives the process (the DB itself unless it is a cache over one)
+	boltPath  string         // backend "bolt": the database file
+	bolt      *bbolt.DB
+	boltDB    *coreutils.BoltChainDB
 	Snaps     []*chain.MemDB // committed image after each Flush
 	Flushes   int
 	onFlush   func()
+}
+
+// Image is what survives if the process stops NOW: for a Bolt database the content of the FILE
+// (copied and opened separately -- the open write transaction of the live node is not in it), for
+// a cache over a MemDB the MemDB below the cache.  For a bare MemDB (which shows its own pending
+// writes) it is only meaningful right after a Flush.
+func (r *recDB) Image() *chain.MemDB {
+	if r.boltPath == "" {
+		return CopyDB(r.durable)
+	}
+	img := r.boltPath + ".img"
+	src, err := os.Open(r.boltPath)
+	if err != nil {
+		panic(err)
+	}
+	dst, err := os.Create(img)
+	if err != nil {
+		panic(err)
+	}
+	if _, err := io.Copy(dst, src); err != nil {
+		panic(err)
+	}
+	src.Close()
+	dst.Close()
+	defer os.Remove(img)
+	bdb, err := bbolt.Open(img, 0600, &bbolt.Options{NoSync: true, NoFreelistSync: true, NoGrowSync: true})
+	if err != nil {
+		panic(fmt.Sprintf("the database file does not open: %v", err))
+	}
+	bc := coreutils.NewBoltChainDB(bdb)
+	out := CopyDB(bc)
+	bc.Cancel()
+	bdb.Close()
+	return out
+}
+
+// Close releases the resources of the database (the Bolt file is removed).
+func (r *recDB) Close() {
+	if r.boltPath != "" && r.bolt != nil {
+		r.boltDB.Cancel() // bbolt's Close waits for the open write transaction
+		r.bolt.Close()
+		os.Remove(r.boltPath)
+		r.bolt = nil
+	}
 }
 
 func (r *recDB) Flush() error {
 	err := r.DB.Flush()
 	r.Flushes++
 	if r.snapshots {
-		r.Snaps = append(r.Snaps, CopyDB(r.durable))
+		r.Snaps = append(r.Snaps, r.Image())
 	}
 	if r.onFlush != nil {
 		r.onFlush()
@@ -181,9 +236,43 @@ type RNode struct {
 	Backend string
 }
 
+var boltSeq atomic.Int64
+
 // Reopen opens a fresh node of the same backend on a copy of a committed image.
 func (n *RNode) Reopen(snap *chain.MemDB, snapshots bool) (*RNode, error) {
 	return OpenNodeOn(n.W, CopyDB(snap), n.Backend, snapshots)
+}
+
+// CrashImage is what survives if the process stops now: the Bolt file as it is on disk, or the
+// MemDB (bare or below a cache) after discarding everything unflushed.  It is read at this very
+// moment and must be exactly the image copied when the last commit completed -- a committed
+// value modified in place, an uncommitted write that leaked or a committed one that is lost all
+// show up as a difference.  The node is then closed.
+func (n *RNode) CrashImage() (img *chain.MemDB, diff string) {
+	last := n.DB.Snaps[len(n.DB.Snaps)-1]
+	img = last
+	{
+		if n.Backend != "bolt" {
+			// MemDB (bare or below the cache): what it holds once everything unflushed is discarded
+			n.DB.durable.Cancel()
+		}
+		img = n.DB.Image()
+		a, b := DumpDB(last), DumpDB(img)
+		for _, bucket := range bucketNames {
+			for k, v := range a[bucket] {
+				if w, ok := b[bucket][k]; !ok || !bytes.Equal(v, w) {
+					diff = fmt.Sprintf("bucket %s key %x: committed by the last completed commit, %s in the database when the process stops", bucket, k, map[bool]string{true: "different", false: "missing"}[ok])
+				}
+			}
+			for k := range b[bucket] {
+				if _, ok := a[bucket][k]; !ok {
+					diff = fmt.Sprintf("bucket %s key %x: in the database when the process stops, but not part of the last completed commit", bucket, k)
+				}
+			}
+		}
+	}
+	n.DB.Close()
+	return img, diff
 }
 
 // OpenNode opens (or initialises) a node on db.
@@ -195,10 +284,40 @@ func OpenNode(w *mat.World, db chain.DB, snapshots bool) (*RNode, error) {
 // "cache": what survives the process is then db, not what the cache shows).
 func OpenNodeOn(w *mat.World, db chain.DB, backend string, snapshots bool) (*RNode, error) {
 	durable := db
-	if backend == "cache" {
+	rdb := &recDB{snapshots: snapshots}
+	switch backend {
+	case "cache":
 		db = chain.NewCacheDB(db)
+	case "bolt":
+		// a Bolt file initialised with the given content
+		rdb.boltPath = filepath.Join(os.Getenv("VERIF_WORK"), fmt.Sprintf("node-%d-%d.bolt", os.Getpid(), boltSeq.Add(1)))
+		os.Remove(rdb.boltPath)
+		bdb, err := bbolt.Open(rdb.boltPath, 0600, &bbolt.Options{NoSync: true, NoFreelistSync: true, NoGrowSync: true})
+		if err != nil {
+			return nil, err
+		}
+		bc := coreutils.NewBoltChainDB(bdb)
+		for _, name := range bucketNames {
+			sb := db.Bucket([]byte(name))
+			if sb == nil {
+				continue
+			}
+			b, err := bc.CreateBucket([]byte(name))
+			if err != nil {
+				return nil, err
+			}
+			for k, v := range sb.Iter() {
+				b.Put(append([]byte(nil), k...), append([]byte(nil), v...))
+			}
+		}
+		if err := bc.Flush(); err != nil {
+			return nil, err
+		}
+		rdb.bolt, rdb.boltDB = bdb, bc
+		db, durable = bc, bc
 	}
-	n := &RNode{W: w, Raw: db, Backend: backend, DB: &recDB{DB: db, durable: durable, snapshots: snapshots}}
+	rdb.DB, rdb.durable = db, durable
+	n := &RNode{W: w, Raw: db, Backend: backend, DB: rdb}
 	st, cs, err := chain.NewDBStore(n.DB, w.N, w.Genesis, nil)
 	if err != nil {
 		return nil, err
@@ -207,7 +326,7 @@ func OpenNodeOn(w *mat.World, db chain.DB, backend string, snapshots bool) (*RNo
 	n.DB.onFlush = n.Store.noteFlush
 	if snapshots && len(n.DB.Snaps) == 0 {
 		// reopened database: the committed image is what we were given
-		n.DB.Snaps = append(n.DB.Snaps, CopyDB(durable))
+		n.DB.Snaps = append(n.DB.Snaps, n.DB.Image())
 	}
 	n.CM = chain.NewManager(n.Store, cs)
 	n.CM.OnReorg(func(types.ChainIndex) { n.nmu.Lock(); n.Notifs++; n.nmu.Unlock() })
@@ -251,6 +370,9 @@ func ErrClass(err error) string {
 // the harness's own crash signal).
 func (n *RNode) Submit(blocks []types.Block, flushAt map[int]bool, crashAt int) (cls string, ops []StoreOp, detail string) {
 	n.Store.beginCall(flushAt, crashAt)
+	// a write through a slice owned by the database (e.g. Bolt's read-only mapping) must surface as
+	// a panic of this call, not kill the whole driver
+	defer debug.SetPanicOnFault(debug.SetPanicOnFault(true))
 	defer func() {
 		ops = append([]StoreOp(nil), n.Store.Ops...)
 		if r := recover(); r != nil {
@@ -283,6 +405,9 @@ func hdrEqual(a, b consensus.State) bool {
 // SubmitValidated calls AddValidatedV2Blocks with the given states (the caller's validation).
 func (n *RNode) SubmitValidated(blocks []types.Block, states []consensus.State, flushAt map[int]bool, crashAt int) (cls string, ops []StoreOp, detail string) {
 	n.Store.beginCall(flushAt, crashAt)
+	// a write through a slice owned by the database (e.g. Bolt's read-only mapping) must surface as
+	// a panic of this call, not kill the whole driver
+	defer debug.SetPanicOnFault(debug.SetPanicOnFault(true))
 	defer func() {
 		ops = append([]StoreOp(nil), n.Store.Ops...)
 		if r := recover(); r != nil {
